@@ -203,7 +203,7 @@ def alphabet(tier="quick", family="all"):
             ("remove_rxns", (("id", "r1"),), False), ("add_back", "r1"), ("add_back", "r2"),
             ("remove_rxns", (("obj", "r1"),), True), ("remove_rxns", (("id", "EX_A"), ("id", "r1")), True),
             ("remove_from_model", "r2"),
-            ("add_model_mets", ("X",)), ("add_model_mets", ("A2",)),
+            ("add_model_mets", ("X",)), ("add_model_mets", ("A2",)), ("add_model_mets", ("X", "X")),
             ("remove_mets", ("B",), False), ("remove_mets", ("B",), True), ("remove_mets", ("X",), False),
             ("remove_mets", ("A",), False),
             ("add_boundary", "B", "demand"), ("add_boundary", "B", "sink"),
